@@ -67,7 +67,8 @@ func genC03Program(r *R, ex map[string]bool) *Program {
 		KV{"si", &Val{T: "simap", M: []KV{{"one", &Val{T: "int", I: 1}}, {"two", &Val{T: "int", I: 2}}, {"three", &Val{T: "int", I: 3}}, {"four", &Val{T: "int", I: 4}}}}},
 	)
 	ctx.M = append(ctx.M, KV{"pm", &Val{T: "pmap", M: []KV{{"k", &Val{T: "str", S: "v"}}}}})
-	maps := []string{"m1", "m2", "mi", "p1.Meta", "nm", "nm.b", "si"}
+	ctx.M = append(ctx.M, KV{"mx", &Val{T: "anymap", M: []KV{{"#9", &Val{T: "str", S: "nine"}}, {"1a", &Val{T: "int", I: 1}}, {"#10", &Val{T: "str", S: "ten"}}, {"b", &Val{T: "bool", B: true}}, {"#-3", &Val{T: "int", I: 3}}, {"10", &Val{T: "str", S: "s10"}}}}})
+	maps := []string{"m1", "m2", "mi", "p1.Meta", "nm", "nm.b", "si", "mx"}
 	hashLit := func() string {
 		n := r.Range(2, 4)
 		keys := []string{"a", "b", "c", "d"}
